@@ -170,6 +170,8 @@ def features(world, x, acc=None):
             features(world, v, acc)
     elif isinstance(x, enum.Enum):
         acc.add("enum")
+        if not isinstance(x.value, (str, int, float, bool, type(None))):
+            acc.add("enum-nonscalar")
     elif isinstance(x, decimal.Decimal):
         acc.add("decimal")
     elif classgen.is_bean(x):
@@ -195,6 +197,8 @@ def features(world, x, acc=None):
 def mech(feats, position):
     """Mechanism tag from the features a failing value exercises."""
     tags = []
+    if "enum-nonscalar" in feats:
+        return "enum-member-whose-value-is-not-a-JSON-scalar"
     if "mangled-slot" in feats:
         tags.append("mangled-slot")
     if "alias" in feats:
